@@ -150,7 +150,8 @@ fn gen_item(r: &mut Rng, p: &mut Pools) -> Option<Shape> {
     let leaf = match r.below(10) {
         0 => Shape::Switch(named),
         1 => Shape::Flag(named, 1, 0),
-        2 => Shape::ReqFlag(named, 1),
+        // (13 is the value the harness's `guard` rejects)
+        2 => Shape::ReqFlag(named, if r.chance(1, 3) { 13 } else { 1 }),
         _ => {
             // `ParseArgument::adjacent`: only `-sVAL`, `-s=VAL`, `--long=VAL` count
             let adjacent = (!named.shorts.is_empty() || !named.longs.is_empty()) && r.chance(1, 10);
@@ -163,6 +164,7 @@ fn gen_item(r: &mut Rng, p: &mut Pools) -> Option<Shape> {
         }
     };
     let is_flag = !matches!(leaf, Shape::Arg { .. });
+    let guardable = matches!(leaf, Shape::Arg { .. } | Shape::ReqFlag(..));
     let mut s = leaf;
     let n = *r.pick(&[0usize, 1, 1, 1, 2, 2, 3][..]);
     for _ in 0..n {
@@ -190,7 +192,7 @@ fn gen_item(r: &mut Rng, p: &mut Pools) -> Option<Shape> {
                 kind: *r.pick(&[0u8, 0, 1][..]),
                 display: 0,
             },
-            11 | 12 if !is_flag => W::Guard {
+            11 | 12 if guardable => W::Guard {
                 kind: 0,
                 msg: "must be valid",
             },
@@ -437,6 +439,8 @@ pub struct Item {
     pub ctx: Ctx,
     pub named: Named,
     pub is_flag: bool,
+    /// the value a `req_flag` yields when present (what a `guard` on it sees)
+    pub present: Option<i64>,
     pub ty: Ty,
     pub adjacent_arg: bool,
     /// wrappers directly on the leaf, innermost first
@@ -541,6 +545,10 @@ fn visit(s: &Shape, level: usize, ctx: Ctx, stack: &mut Vec<W>, counter: &mut us
                 ctx,
                 named: n.clone(),
                 is_flag: true,
+                present: match s {
+                    Shape::ReqFlag(_, a) => Some(*a),
+                    _ => None,
+                },
                 ty: Ty::Str,
                 adjacent_arg: false,
                 stack: st,
@@ -560,6 +568,7 @@ fn visit(s: &Shape, level: usize, ctx: Ctx, stack: &mut Vec<W>, counter: &mut us
                 ctx,
                 named: named.clone(),
                 is_flag: false,
+                present: None,
                 ty: *ty,
                 adjacent_arg: *adjacent,
                 stack: st,
@@ -1372,11 +1381,16 @@ fn equivalent(a: &Obs, b: &Obs) -> bool {
 /// does this value survive the item's own conversion and validation? (harness knowledge of the
 /// types and of its own callbacks; `None` = cannot say)
 fn value_is_invalid(it: &Item, v: &[u8]) -> Option<bool> {
-    if it.is_flag {
-        return Some(false);
-    }
     let utf8 = std::str::from_utf8(v).ok();
-    let mut cur: val::Val = match it.ty {
+    let mut cur: val::Val = if it.is_flag {
+        // a flag takes nothing from the value of its variable; what can fail is a `guard` or
+        // `parse` on what a `req_flag` yields when present
+        match it.present {
+            Some(n) => val::Val::Int(n),
+            None => return Some(false),
+        }
+    } else {
+        match it.ty {
         Ty::Os | Ty::Path => val::Val::Os(v.to_vec()),
         Ty::Str => match utf8 {
             Some(s) => val::Val::Str(s.to_string()),
@@ -1386,6 +1400,7 @@ fn value_is_invalid(it: &Item, v: &[u8]) -> Option<bool> {
             Some(n) => val::Val::Int(n),
             None => return Some(true),
         },
+        }
     };
     // walk the wrappers that sit directly on the leaf, up to the first one that changes shape
     for w in &it.stack {
